@@ -138,6 +138,9 @@ class SourceIndex:
                 if mm:
                     fields.append(mm.group(1))
             self.structs.setdefault(m.group(1), []).append((module, fields))
+        for m in re.finditer(r'\bstruct\s+(\w+)\b[^;{(]*[(;]', src):
+            if not any(mod == module for mod, _ in self.structs.get(m.group(1), [])):
+                self.structs.setdefault(m.group(1), []).append((module, []))
 
     def add_tree(self, root, crate, src_sub='src'):
         base = os.path.join(root, src_sub)
